@@ -149,6 +149,9 @@ func genCase(r *kit.Rand, idx int, tier string) []string {
 	if tier == "thorough" && idx%4 == 3 {
 		mode = "http"
 	}
+	if tier == "racechild" {
+		mode = "api noise" // forkPoint keeps running while tasks start and stop
+	}
 	ops = append(ops, fmt.Sprintf("cfg %s %s", kit.Esc(defRP), mode))
 	names := genNames[:r.Range(2, len(genNames))]
 	focus := r.Chance(2, 5)
